@@ -252,12 +252,27 @@ class Evolver:
             ({"type": "array", "items": "int"}, [1, 2]), ({"type": "array", "items": "string"}, []),
             ({"type": "map", "values": "long"}, {"a": 1}), ({"type": "map", "values": "bytes"}, {"k": "þ"}),
             ({"type": "int"}, 0), ({"type": "string", "logicalType": "zzz"}, ""),
+            # union-typed fields whose default belongs to a branch that is not the first
+            (["null", "bytes"], "ÿ"), (["int", "bytes"], "ab"), (["null", "double"], 3), (["null", "float", "string"], 1.5),
+            (["null", {"type": "array", "items": "bytes"}], ["ÿ", ""]), (["long", {"type": "map", "values": "bytes"}], {"k": "þ"}),
+            (["null", {"type": "array", "items": "float"}], [1, 2.5]), (["boolean", "null", "string"], None),
         ]
         r = rng.random()
         if r < 0.6:
             t, d = rng.choice(choices)
             return copy.deepcopy(t), copy.deepcopy(d)
         ns = rng.choice(["", "", "ns", "a.b"])
+        if r < 0.64:
+            # named types under a non-first union branch
+            k = rng.choice(["fixed", "enum", "record", "array-of-fixed"])
+            if k == "fixed":
+                return ["null", {"type": "fixed", "name": self.fresh("NF"), "namespace": ns, "size": 2}], "\u0001þ"
+            if k == "enum":
+                return ["int", {"type": "enum", "name": self.fresh("NE"), "namespace": ns, "symbols": ["X", "Y"]}], "Y"
+            if k == "record":
+                return (["null", {"type": "record", "name": self.fresh("NR"), "namespace": ns, "fields": [
+                    {"name": "a", "type": "float", "default": 2}, {"name": "b", "type": "bytes"}]}], {"b": "ÿ"})
+            return ["null", {"type": "array", "items": {"type": "fixed", "name": self.fresh("NF"), "namespace": ns, "size": 1}}], ["þ", "a"]
         if r < 0.7:
             return {"type": "enum", "name": self.fresh("NE"), "namespace": ns, "symbols": ["X", "Y", "Z"]}, rng.choice(["X", "Y"])
         if r < 0.78:
